@@ -1549,6 +1549,31 @@ def c_convert_case(kind):
         g = func("g", [(F2, "p")], "float", [("ret", B("/", IDX(V("p"), 0), IDX(V("p"), 1)))], export=False)
         f = func("f", [(I2, "a1")], "float", [("ret", ("call", "g", [V("a1")]))])
         ins = [({"a1": v}, {}) for v in ([7, 2], [1, 4])]
+    elif kind.startswith("nested-"):
+        # a converting call / constructor / operation that is itself an argument of a call or constructor
+        hi = func("hi", [("int", "p")], "int", [("ret", B("*", V("p"), lit(10)))], export=False)
+        hf = func("hf", [("float", "p")], "float", [("ret", B("/", V("p"), lit(4)))], export=False)
+        g = func("g", [("int", "q")], "int", [("ret", B("+", V("q"), lit(1)))], export=False)
+        gf = func("gf", [("float", "q")], "float", [("ret", B("/", V("q"), lit(2)))], export=False)
+        body, rt = {
+            "nested-call-in-call": ([("ret", ("call", "g", [("call", "hi", [V("a1")])]))], "int"),
+            "nested-call-in-call-twice": ([("ret", ("call", "g", [("call", "hi", [("call", "hi", [V("a1")])])]))], "int"),
+            "nested-int-call-in-float-call": ([("ret", ("call", "gf", [("call", "hi", [V("a1")])]))], "float"),
+            "nested-call-in-second-argument": ([("ret", ("call", "two", [V("a1"), ("call", "hi", [V("a1")])]))], "float"),
+            "nested-call-in-ctor": ([("ret", CTOR(I2, ("call", "hi", [V("a1")]), lit(1)))], I2),
+            "nested-ctor-in-ctor": ([("ret", CTOR(F2, CTOR(I2, V("a1"), V("a1"))))], F2),
+            "nested-ctor-in-call": ([("ret", ("call", "sum2", [CTOR(I2, V("a1"), B("+", V("a1"), lit(1.0)))]))], "int"),
+            "nested-operation-in-call": ([("ret", ("call", "gf", [B("/", V("i1"), V("a1"))]))], "float"),
+            "nested-int-operation-in-float-call": ([("ret", ("call", "gf", [B("/", V("i1"), lit(2))]))], "float"),
+            "nested-operation-in-ctor": ([("ret", CTOR(F2, B("/", V("i1"), V("a1")), B("/", V("i1"), lit(2))))], F2),
+            "nested-call-in-index": ([("decl", ("arr", "int", (3,)), "q", None), ASG(IDX(V("q"), 1), lit(4)), ("ret", IDX(V("q"), B("/", ("call", "hi", [V("a1")]), lit(20))))], "int"),
+            "nested-call-in-condition": ([("if", B(">", ("call", "g", [("call", "hi", [V("a1")])]), lit(25)), ("block", [("ret", lit(1))]), None), ("ret", lit(2))], "int"),
+        }[kind]
+        two = func("two", [("float", "u"), ("float", "w")], "float", [("ret", B("+", B("*", V("u"), lit(100.0)), V("w")))], export=False)
+        sum2 = func("sum2", [(I2, "v")], "int", [("ret", B("+", B("*", IDX(V("v"), 0), lit(10)), IDX(V("v"), 1)))], export=False)
+        f = func("f", [("float", "a1"), ("int", "i1")], rt, body)
+        return {"fam": "C", "desc": f"convert;{kind}", "prog": {"funcs": [hi, hf, g, gf, two, sum2]},
+                "units": [{"funcs": [f], "entry": "f", "inputs": [({"a1": v, "i1": i}, {}) for v, i in ((2.75, 7), (0.5, 3), (7.0, 8))]}]}
     else:
         g = func("g", [("float", "p"), ("int", "q")], "float", [("ret", B("+", V("p"), V("q")))], export=False)
         f = func("f", [("int", "a1"), ("float", "a2")], "float", [("ret", ("call", "g", [V("a1"), V("a2")]))])
@@ -1580,7 +1605,9 @@ def fam_C(tier):
             if tier == "quick" and order[0] > order[-1] and setname != "vectors":
                 continue
             yield (c_many_sites_case, setname, order)
-    for kind in ("int-to-float", "float-to-int", "mixed-two-args", "float-to-int-fraction", "float-vector-to-int-vector", "int-vector-to-float-vector"):
+    for kind in ("int-to-float", "float-to-int", "mixed-two-args", "float-to-int-fraction", "float-vector-to-int-vector", "int-vector-to-float-vector",
+                 "nested-call-in-call", "nested-call-in-call-twice", "nested-int-call-in-float-call", "nested-call-in-second-argument", "nested-call-in-ctor", "nested-ctor-in-ctor",
+                 "nested-ctor-in-call", "nested-operation-in-call", "nested-int-operation-in-float-call", "nested-operation-in-ctor", "nested-call-in-index", "nested-call-in-condition"):
         yield (c_convert_case, kind)
 
 
